@@ -119,6 +119,16 @@ def oracle(chk):
                                 ("Cholesky/vector", transforms.Cholesky(jnp.asarray(v), nb), lambda x: x / v),
                                 ("Cholesky/matrix", transforms.Cholesky(jnp.asarray(L), nb), lambda x: np.linalg.solve(L, x)),
                                 ("Subspace", transforms.Subspace((0, 2), nb), lambda x: x[[0, 2]])):
+            # integer-typed coordinates (grid indices): the transform acts on their values, nothing is truncated to the coordinate dtype
+            Xi = rng.integers(-3, 4, size=(4, d))
+            for Xint, itag in ((Xi, "int64"), (Xi.astype(np.int32), "int32")):
+                wanti = np.array([[nbe(fmap(a.astype(float)), fmap(b.astype(float))) for b in Xi] for a in Xi])
+                tol_i = 1e-9 if itag == "int64" else 2e-5     # JAX promotes int32 coordinates to float32
+                try:
+                    ck(f"{tname}[{bname}]/pairwise matrix on {itag} coordinates", tk(jnp.asarray(Xint), jnp.asarray(Xint)), wanti, tol_i, base=bname, X=Xi.tolist())
+                    ck(f"{tname}[{bname}]/diagonal path on {itag} coordinates", tk(jnp.asarray(Xint)), np.diag(wanti), tol_i, base=bname, X=Xi.tolist())
+                except TypeError:
+                    pass   # a transform that refuses integer arrays outright is not silently wrong
             want = np.array([[nbe(fmap(a), fmap(b)) for b in X] for a in X])
             info = dict(base=bname, X=X.tolist())
             ck(f"{tname}[{bname}]/pairwise matrix", tk(jnp.asarray(X), jnp.asarray(X)), want, 1e-9, **info)
